@@ -109,6 +109,19 @@ func (e *Engine) typesPkgByName(name string) *types.Package {
 	return nil
 }
 
+func (e *Engine) typesPkgsByName(name string) []*types.Package {
+	var out []*types.Package
+	if p := e.byName[name]; p != nil {
+		out = append(out, p.Pkg)
+	}
+	for _, p := range e.prog.AllPackages() {
+		if p.Pkg.Name() == name && (len(out) == 0 || out[0] != p.Pkg) {
+			out = append(out, p.Pkg)
+		}
+	}
+	return out
+}
+
 // lookupFunc finds pkg.Name or pkg.Type.Method.
 func (e *Engine) lookupFunc(pkg, name string) *ssa.Function {
 	return e.funcs[pkg+"."+name]
@@ -409,7 +422,26 @@ func (e *Engine) verifyLemma(l *LemmaSpec) *VC {
 	f.entry = st
 	f.vals = map[ssa.Value]Val{}
 	env := &SpecEnv{f: f, pkg: e.typesPkgByName(l.Pkg), params: map[string]Val{}, pre: st, spec: &FuncSpec{Name: l.Name}}
-	t := env.evalBool(l.Expr, st, nil)
+	// leading universal quantifiers become free constants (prove P(c) for fresh c)
+	expr := l.Expr
+	for {
+		q, ok := expr.(*EQuant)
+		if !ok || !q.All {
+			break
+		}
+		for _, b := range q.Vars {
+			ty := env.resolveType(b.Type)
+			if ty == nil {
+				vc.unsupported("lemma %s: unknown type %s", l.Name, b.Type)
+				ty = types.Typ[types.Int]
+			}
+			v := vc.freshVal("L_"+b.Name, ty)
+			f.assumeWF(st, v)
+			env.params[b.Name] = v
+		}
+		expr = q.Body
+	}
+	t := env.evalBool(expr, st, nil)
 	vc.oblige(st, l.Class, l.Name, l.Text, token.NoPos, t)
 	return vc
 }
